@@ -2524,7 +2524,7 @@ class Evaluator:
             # concrete number or string) differs from what the enclosing activation of the same function received. Recursion
             # over purely symbolic arguments (a parser calling itself on an unknown buffer) keeps the old limit.
             prev = self.__dict__.setdefault("_rec_args", {}).get(fi.qualname)
-            progress = prev is not None and any(
+            progress = bool(prev) and any(
                 isinstance(v_, (list, tuple, dict, int, bytes, str)) and not isinstance(v_, bool) and k_ in prev[-1] and
                 not (isinstance(prev[-1][k_], type(v_)) and tm.veq(tm.freeze(v_) if isinstance(v_, (list, tuple, dict)) else v_,
                                                                   tm.freeze(prev[-1][k_]) if isinstance(prev[-1][k_], (list, tuple, dict)) else prev[-1][k_]))
@@ -3200,6 +3200,11 @@ class Evaluator:
                 return list(seq) if n == "list" else tuple(seq)
             if tm.tyof(a0) == tm.LIST:
                 return a0
+            if isinstance(a0, T) and tm.tyof(a0) == tm.BYTES and a0.op in ("cat", "i2b"):
+                n_ = tm.blen(a0)
+                if isinstance(n_, int) and not isinstance(n_, bool) and n_ <= 512:
+                    items_ = [tm.idx(a0, i_) for i_ in range(n_)]  # the bytes of a byte string of known structure
+                    return items_ if n == "list" else tuple(items_)
             return T("tolist", (tm._fz(a0),), tm.LIST)
         if n == "sorted":
             if tm.is_conc(a0) and not kw:
@@ -3224,6 +3229,8 @@ class Evaluator:
                     if "default" in kw:
                         return kw["default"]
             return T(n, tuple(sorted((tm._fz(p) for p in pos), key=tm.sortkey)), tm.INT)
+        if n in ("bytes.maketrans", "bytearray.maketrans") and len(pos) == 2 and isinstance(pos[0], (bytes, bytearray)) and isinstance(pos[1], (bytes, bytearray)) and len(pos[0]) == len(pos[1]):
+            return bytes.maketrans(bytes(pos[0]), bytes(pos[1]))
         if n in ("io.BytesIO", "BytesIO") and len(pos) <= 1 and not kw:
             return _BytesIO(pos[0] if pos else b"", 0)
         if n == "bytes" and len(pos) == 1 and isinstance(a0, _BytesIO):
